@@ -158,6 +158,66 @@ def gen_global_order(ctx, n):
     return cases
 
 
+def gen_cancel(ctx, n):
+    """cancellation: (a) cancel while the target runs, acted on at its next testcancel; (b) cancel after the target has
+    finished and before it is joined, then a new thread that recycles the descriptor and calls testcancel (must go on);
+    (c) cancel while cancellation is disabled, enabled later; (d) testcancel without any cancel.  Every handle is used
+    before the join of its thread returns; cancellers other than the creator are joined before the target is"""
+    r = ctx.rng
+    cases = []
+    for i in range(n):
+        threads, ops, t = {}, [], 1
+        workers = r.choice([1, 1, 2, 3, 4])
+        for _ in range(r.rng(2, 5)):
+            me = t; t += 1
+            kind = r.choice("aabcd")
+            body = ["retval %d" % r.rng(2, 900)]
+            steps = r.rng(1, 5)
+            dis = kind == "c" or r.chance(1, 6)
+            if dis:
+                body.append("setcancel 0")
+            for k in range(steps):
+                body.append(r.choice(["nop", "yield", "yield 1", "nop"]))
+                body.append("testcancel")
+                if dis and k == steps // 2:
+                    body.append("setcancel 1")
+                    dis = False
+            if dis:
+                body.append("setcancel 1"); body.append("testcancel")
+            body.append("nop")
+            threads[me] = body
+            flag = r.choice(["", " pf", " pf", " attr", " nullid"])
+            if kind == "b":
+                # one worker + child-first: finished when the creator goes on; otherwise "finished" is up to the schedule
+                ops.append("create %d%s" % (me, r.choice(["", " nullid"])))
+                ops += ["yield"] * r.rng(0, 2)
+                ops.append("cancel %d" % me)
+                ops.append("join %d" % me)
+                nxt = t; t += 1
+                threads[nxt] = ["retval %d" % r.rng(2, 900), "nop", "testcancel", "nop", "testcancel"]
+                ops.append("create %d" % nxt)
+                ops.append("join %d" % nxt)
+            elif kind == "d":
+                ops.append("create %d%s" % (me, flag))
+                ops.append("join %d" % me)
+            else:
+                ops.append("create %d%s" % (me, flag))
+                if r.chance(1, 3):
+                    sib = t; t += 1
+                    threads[sib] = [r.choice(["nop", "yield"]), "cancel %d" % me]
+                    ops.append("create %d%s" % (sib, r.choice(["", " pf"])))
+                    ops.append("join %d" % sib)
+                else:
+                    ops += ["yield"] * r.rng(0, 2)
+                    ops.append("cancel %d" % me)
+                    if r.chance(1, 4):
+                        ops.append("cancel %d" % me)
+                ops.append("join %d" % me)
+        threads[0] = ops
+        cases.append(trace.case_text(workers, r.rng(1, 1 << 30), [], threads, pswitch=r.choice([20, 35, 60, 85])))
+    return cases
+
+
 def gen_cases(ctx, n):
     r = ctx.rng
     cases = []
@@ -239,6 +299,7 @@ def oracle(r):
             bad.append("create returned %d" % cl["ret"])
     bad += dc.oracle_no_free_before_ready2(r)
     bad += dc.oracle_ledger(r)
+    bad += dc.oracle_cancel(r)
     return bad
 
 
@@ -386,7 +447,8 @@ def run(ctx):
     broken, log = ctx.prove("Properties_C01.v", "Properties_C01")
     exe, drv = dc.build(ctx)
     n = 100 if not ctx.thorough else 1500
-    cases = load_corpus("C01") + gen_cases(ctx, n) + gen_global_order(ctx, 40 if not ctx.thorough else 600)
+    cases = (load_corpus("C01") + gen_cases(ctx, n) + gen_global_order(ctx, 40 if not ctx.thorough else 600) +
+             gen_cancel(ctx, 40 if not ctx.thorough else 600))
     results = dc.run_cases(ctx, exe, drv, cases)
     fviol, fstats = run_free(ctx)
     ctx.cov["free_running"] = {"configs": fstats, "pairs_total": sum(int(x["config"][1]) for x in fstats)}
@@ -398,6 +460,15 @@ def run(ctx):
                                      r["proj"].gcf, "child-first" if st[0][1] == "1" else "parent-first")
             orders[k] = orders.get(k, 0) + 1
     ctx.cov["creation_orders"] = orders
+    canc = {}
+    for r in results:
+        for cl in r["proj"].calls:
+            if cl["op"] in ("cancel", "setcancel"):
+                canc[cl["op"]] = canc.get(cl["op"], 0) + 1
+            elif cl["op"] == "testcancel":
+                k = "testcancel " + ("acted" if cl["acted"] else "went on")
+                canc[k] = canc.get(k, 0) + 1
+    ctx.cov["cancellation"] = canc
     return judge(ctx, "C01", results, oracle, POINTS, broken, log, exe, drv, ASSUMPTIONS,
                  extra_trusted=["harness/c01_free.c (free-running; pattern / checksum / argument bookkeeping; not deterministic: a failure is re-run %d times and the count reported)" % FREE_REPEAT],
                  extra_violations=fviol)
